@@ -183,7 +183,7 @@ Check err_reports_true_residual : forall (A : SArith), FieldLaws (SA A) ->
 Print Assumptions err_reports_true_residual.
 Example err_reports_true_residual_nonvacuous : LinOp 2 (@sp_mul AQ exq_s) /\ exists e x g,
     @run SAQ (sp_mul exq_s) (sp_tmul exq_s) 2 2 CG [q 1 1; q 2 1] [q 2 1; q 1 1] 1 (q 1 1000) = Ok (IErr e, x, g).
-Proof. split; [exact exq_lin|]. vm_compute. do 3 eexists. reflexivity. Qed.
+Proof. split; [exact exq_lin|]. apply (@is_err_witness SAQ). vm_compute. reflexivity. Qed.
 
 Theorem err_reports_true_residual_sparse : forall (A : SArith), FieldLaws (SA A) ->
   forall sv (s : sparse (SA A)) b x0 max tol e x g,
@@ -199,7 +199,7 @@ Check err_reports_true_residual_sparse : forall (A : SArith), FieldLaws (SA A) -
 Print Assumptions err_reports_true_residual_sparse.
 Example err_reports_true_residual_sparse_nonvacuous : wfS exq_s /\ exists e x g,
     @run_sparse SAQ CG exq_s [q 1 1; q 2 1] [q 2 1; q 1 1] 1 (q 1 1000) = Ok (IErr e, x, g).
-Proof. split; [exact exq_s_wf|]. vm_compute. do 3 eexists. reflexivity. Qed.
+Proof. split; [exact exq_s_wf|]. apply (@is_err_witness SAQ). vm_compute. reflexivity. Qed.
 
 (* over R: e = ||b - A x||_2 / ||b||', and after budget exhaustion tol <= e: Ok k <-> solved to tol, Err(e) at exhaustion <-> not below tol *)
 Theorem err_reports_true_residual_sparse_R : forall sv (s : sparse AR) (b x0 : list R) max (tol : R) e x g,
